@@ -11,7 +11,6 @@ Every clause is taken from the statement of C03:
   returns       the call returns (no exception)
 Oracle: vlib.spec.net (snapshot / tt / wf_violations) only.
 """
-from .. import env
 from ..spec import net as N
 from . import _simp_common as C
 
@@ -84,23 +83,45 @@ def clause_failures(net, expr, ctx=None):
 _shrunk = {}
 
 
+def _as_net(snap):
+    return N.Net(snap.inputs, snap.outputs, snap.gates)
+
+
+def attribute(net, expr, clause):
+    """Map a pipeline failure to the first constituent pass that shows the same clause failure on the circuit it
+    receives under manual sequencing (one root cause -> one finding); otherwise the pipeline itself is blamed."""
+    if isinstance(expr, str):
+        return expr, net
+    cur = net
+    P = _passes()
+    for b in C.constituents(expr):
+        try:
+            if clause in clause_failures(cur, b):
+                return b, cur
+            cur = _as_net(N.snapshot(C.apply_expr(b, N.build(cur), P)))
+        except Exception:
+            break
+    return expr, net
+
+
 def check(net, pipes):
     out = []
     ctx = C.Ctx(net)
     for expr in pipes:
         bad = clause_failures(net, expr, ctx)
-        for clause, (detail, obs, exp) in bad.items():
-            pre = (C.expr_name(expr), clause, C.wclass(net))
-            _shrunk[pre] = _shrunk.get(pre, 0) + 1
-            small = net
-            if _shrunk[pre] <= 2:
-                small = C.shrink(net, lambda m: clause in clause_failures(m, expr))
-            if small is not net:
-                detail, obs, exp = clause_failures(small, expr)[clause]
-            pname = C.expr_name(expr)
-            out.append((f'C03/{pname}/{clause}', C.wclass(small),
-                        f'{C.expr_str(expr)} on {small.to_json()["gates"]} outputs={small.outputs}: {detail}',
-                        C.replay(small, expr, obs, exp, {'clause': clause, 'unshrunk_netlist': net.to_json()})))
+        for clause in bad:
+            bexpr, bnet = attribute(net, expr, clause)
+            pname = C.expr_name(bexpr)
+            obligation = f'C03/{pname}/{clause}'
+            k = _shrunk[obligation] = _shrunk.get(obligation, 0) + 1
+            if k > 150:
+                continue                      # mass failure: the class representatives were already reported
+            small = C.shrink(bnet, lambda m: clause in clause_failures(m, bexpr), budget=600 if k <= 12 else 80)
+            detail, obs, exp = clause_failures(small, bexpr)[clause]
+            out.append((obligation, C.wclass(small),
+                        f'{C.expr_str(bexpr)} on {small.to_json()["gates"]} outputs={small.outputs}: {detail}',
+                        C.replay(small, bexpr, obs, exp, {'clause': clause, 'found_with_pipeline': C.expr_str(expr),
+                                                          'found_on_netlist': net.to_json()})))
     return len(pipes), out
 
 
